@@ -10,6 +10,59 @@ UNITS = ['px', 'em', '%', 'deg', 's', 'pt']
 FUNCS = ['attr', 'counter', 'translate', 'x-fn']
 COLORS = ['#fff', '#a1b2c3', '#000', 'red', 'transparent', 'rgb(1, 2, 3)', 'rgba(0, 0, 0, 0.5)', 'hsl(120, 50%, 50%)', 'rgb(10%, 20%, 30%)']
 MEDIA = ['print', 'screen', 'tv', 'all', 'handheld']
+FEATURES = [('min-width', '100px'), ('max-width', '40em'), ('orientation', 'landscape'), ('color', None), ('min-resolution', '2'),
+            ('monochrome', None), ('max-height', '50%')]
+
+
+def gen_mq(rnd, simple=0.6):
+    """a media query as a tuple of tokens (canonical, lower-case)"""
+    if rnd.random() < simple:
+        return (rnd.choice(MEDIA[:3]),)
+
+    def expr():
+        f, v = rnd.choice(FEATURES)
+        return ('(', f) + ((':', v) if v else ()) + (')',)
+    q = ()
+    if rnd.random() < 0.7:
+        if rnd.random() < 0.4:
+            q += (rnd.choice(['only', 'not']),)
+        q += (rnd.choice(MEDIA[:3]),)
+        for _ in range(rnd.randint(0 if len(q) > 1 else 1, 2)):
+            q += ('and',) + expr()
+    else:
+        q += expr()
+        for _ in range(rnd.randint(0, 1)):
+            q += ('and',) + expr()
+    return q
+
+
+def gen_mqs(rnd, lo, hi):
+    out = []
+    for _ in range(rnd.randint(lo, hi)):
+        q = gen_mq(rnd)
+        if q not in out:
+            out.append(q)
+    return out
+
+
+def render_mq(q, lay, sp):
+    out = []
+    for i, t in enumerate(q):
+        if i:
+            prev = q[i - 1]
+            # white space is needed between two words and before '(' after a word ('and(' would be a function)
+            need = (prev not in '(:)' and t not in '(:)') or (t == '(' and prev not in '(:)')
+            out.append(lay.ws(need))
+        if t in '(:)' or t[0].isdigit():
+            out.append(t)
+        elif i and q[i - 1] == '(':
+            out.append(sp.keyword(t))          # feature name
+        elif i and q[i - 1] == ':':
+            out.append(sp.value(Comp('IDENT', t)))
+        else:
+            out.append(sp.mediaword(t))        # media type, and / only / not (their spelling is kept in mediaText)
+    return ''.join(out)
+
 
 
 class Comp:
@@ -49,7 +102,9 @@ def gen_value(rnd, depth=0):
             f = rnd.choice(FUNCS)
             args = [c for c in gen_value(rnd, depth + 2) if c.kind != 'SEP']
             inner = ', '.join(c.text for c in args)
-            comps.append(Comp('FUNCTION', (f, tuple(c.key() for c in args)), '%s(%s)' % (f, inner)))
+            fc = Comp('FUNCTION', (f, tuple(c.key() for c in args)), '%s(%s)' % (f, inner))
+            fc.args = args
+            comps.append(fc)
         elif k == 'calc':
             a, b = rnd.choice(['1px', '2em', '50%']), rnd.choice(['3px', '1em', '10%'])
             op = rnd.choice(['+', '-', '*', '/'])
@@ -85,7 +140,7 @@ def gen_rule(rnd, depth=0, in_media=False):
     if k == 'style':
         return ('style', [gen_selector(rnd) for _ in range(rnd.randint(1, 3))], gen_decls(rnd, 1, 4))
     if k == 'media':
-        mq = rnd.sample(MEDIA[:3], rnd.randint(1, 2))
+        mq = gen_mqs(rnd, 1, 2)
         return ('media', mq, [gen_rule(rnd, depth + 1, True) for _ in range(rnd.randint(1, 3))])
     if k == 'page':
         sel = rnd.choice(['', ':first', ':left', 'toc'])
@@ -109,7 +164,7 @@ def gen_sheet(rnd):
     if rnd.random() < 0.3:
         rules.append(('charset', 'utf-8'))
     for _ in range(rnd.randint(0, 2)):
-        rules.append(('import', rnd.choice(['a.css', 'sub/b.css', 'http://h/c.css']), rnd.sample(MEDIA[:3], rnd.randint(0, 2)),
+        rules.append(('import', rnd.choice(['a.css', 'sub/b.css', 'http://h/c.css']), gen_mqs(rnd, 0, 2),
                       rnd.random() < 0.5))
     if rnd.random() < 0.6:
         rules.append(('namespace', 'p', 'http://ns/p'))
@@ -285,6 +340,23 @@ class Layout:
         return ''
 
 
+def render_comp(c, lay, sp):
+    """one component under a layout: white space and comments also inside functions and calc()"""
+    w = lay.ws
+    if c.kind == 'FUNCTION':
+        name, args = c.value[0], c.args
+        return sp.fname(name) + '(' + w() + (w() + ',' + w()).join(render_comp(a, lay, sp) for a in args) + w() + ')'
+    if c.kind == 'CALC':
+        a, op, b = c.value
+        sep = w(True) if op in '+-' else w()
+        return sp.fname('calc') + '(' + w() + sp.dim(a) + sep + op + sep + sp.dim(b) + w() + ')'
+    if c.kind == 'COLOR_VALUE' and '(' in c.text:
+        i = c.text.index('(')
+        parts = c.text[i + 1:-1].split(', ')
+        return sp.fname(c.text[:i]) + '(' + w() + (w() + ',' + w()).join(parts) + w() + ')'
+    return sp.value(c)
+
+
 def render_value(comps, lay, sp):
     out = []
     prev = None
@@ -294,7 +366,7 @@ def render_value(comps, lay, sp):
         else:
             if prev is not None and prev.kind != 'SEP':
                 out.append(lay.ws(True))
-            out.append(sp.value(c))
+            out.append(render_comp(c, lay, sp))
         prev = c
     return ''.join(out)
 
@@ -320,7 +392,7 @@ def render_rule(rule, lay, sp):
         return '@charset "%s";' % rule[1]
     if k == 'import':
         href = sp.string(rule[1]) if not rule[3] else sp.url(rule[1])
-        mq = (w(True) + (w() + ',' + w()).join(rule[2])) if rule[2] else ''
+        mq = (w(True) + (w() + ',' + w()).join(render_mq(q, lay, sp) for q in rule[2])) if rule[2] else ''
         return sp.atkw('@import') + w(True) + href + mq + w() + ';'
     if k == 'namespace':
         return sp.atkw('@namespace') + w(True) + (rule[1] + w(True) if rule[1] else '') + sp.string(rule[2]) + w() + ';'
@@ -328,7 +400,7 @@ def render_rule(rule, lay, sp):
         sels = (w(ctx='selend') + ',' + w()).join(render_selector(sel, lay, sp) for sel in rule[1])
         return sels + w(ctx='selend') + '{' + w() + render_decls(rule[2], lay, sp) + w() + '}'
     if k == 'media':
-        mq = (w() + ',' + w()).join(rule[1])
+        mq = (w() + ',' + w()).join(render_mq(q, lay, sp) for q in rule[1])
         body = w().join(render_rule(r, lay, sp) for r in rule[2])
         return sp.atkw('@media') + w(True) + mq + w() + '{' + w() + body + w() + '}'
     if k == 'page':
@@ -375,6 +447,15 @@ class Plain:
     def value(self, c):
         return c.text
 
+    def fname(self, n):
+        return n
+
+    def dim(self, t):
+        return t
+
+    def mediaword(self, t):
+        return t
+
 
 class Respell(Plain):
     """spellings CSS defines as equivalent: letter case, backslash escapes of name characters (hex with optional
@@ -417,6 +498,17 @@ class Respell(Plain):
     def keyword(self, k):
         return self._esc(self._case(k))
 
+    def fname(self, n):
+        return self._esc(self._case(n))
+
+    def mediaword(self, t):
+        return self._esc(self._case(t), literal=False)
+
+    def dim(self, t):
+        i = len(t.rstrip('abcdefghijklmnopqrstuvwxyz%'))
+        unit = t[i:]
+        return t[:i] + (self._esc(self._case(unit)) if unit != '%' else unit)
+
     def ident(self, k):
         """case is significant in element, class and id names: escapes only (literal escapes there are the recorded
         finding C10-selector-literal-escape, probed separately)"""
@@ -445,12 +537,7 @@ class Respell(Plain):
             # (a literal escape in an identifier of a value is the recorded finding C10-value-literal-escape)
             return self._esc(c.text, literal=self.pinned)
         if k in ('DIMENSION', 'PERCENTAGE'):
-            i = len(c.text.rstrip('abcdefghijklmnopqrstuvwxyz%'))
-            unit = c.text[i:]
-            return c.text[:i] + (self._esc(self._case(unit)) if unit != '%' else unit)
-        if k == 'FUNCTION' or (k == 'COLOR_VALUE' and '(' in c.text) or k == 'CALC':
-            i = c.text.index('(')
-            return self._esc(self._case(c.text[:i])) + c.text[i:]
+            return self.dim(c.text)
         if k == 'COLOR_VALUE':
             return c.text if c.text.startswith('#') else self._esc(c.text, literal=self.pinned)
         return c.text
@@ -459,13 +546,14 @@ class Respell(Plain):
 # ------------------------------------------------------------------ the model read off a parsed sheet
 
 def comp_model(v):
+    """type and value of one component; comments inside functions are no part of it"""
     t = v.type
     if t == 'URI':
         return ('URI', v.uri)
     if t == 'STRING':
         return ('STRING', v.value)
-    if t == 'FUNCTION' or t == 'CALC' or hasattr(v, 'seq') and t not in ('IDENT', 'NUMBER', 'DIMENSION', 'PERCENTAGE', 'HASH'):
-        return (t, ' '.join(v.cssText.split()))
+    if t in ('FUNCTION', 'CALC', 'COLOR_VALUE', 'VARIABLE') and isinstance(getattr(v, 'value', None), str):
+        return (t, ' '.join(v.value.split()))
     return (t, v.cssText)
 
 
@@ -492,9 +580,14 @@ def selector_model(sel):
 
 def media_model(ml):
     def mq(q):
-        return tuple(getattr(j.value, 'cssText', j.value) for j in q.seq if not hasattr(j.value, 'cssText') or
-                     j.value.__class__.__name__ != 'CSSComment')
-    return [(i.value.mediaType, mq(i.value)) for i in ml.seq if i.type == 'MediaQuery']
+        out = []
+        for j in q.seq:
+            if j.value.__class__.__name__ == 'CSSComment':
+                continue
+            v = getattr(j.value, 'cssText', j.value)
+            out.append(v.lower() if isinstance(v, str) else v)
+        return tuple(out)
+    return [mq(i.value) for i in ml.seq if i.type == 'MediaQuery']
 
 
 def strip_comments(t):
@@ -551,7 +644,7 @@ def expected_shape(rules):
         elif k == 'fontface':
             out.append(('fontface', expected_decls(r[1])))
         elif k == 'import':
-            out.append(('import', r[1], list(r[2]) or ['all']))
+            out.append(('import', r[1], list(r[2]) or [('all',)]))
         elif k in ('namespace', 'charset', 'comment'):
             out.append(tuple(r) if k != 'comment' else ('comment', '/*%s*/' % r[1]))
         elif k == 'unknown':
@@ -570,9 +663,9 @@ def shape_of_model(model):
         if k == 'style':
             out.append(('style', [s[1] for s in m[1]], ds(m[2])))
         elif k == 'media':
-            out.append(('media', [q[0] for q in m[1]], shape_of_model(m[2])))
+            out.append(('media', list(m[1]), shape_of_model(m[2])))
         elif k == 'import':
-            out.append(('import', m[1], [q[0] for q in m[2]]))
+            out.append(('import', m[1], list(m[2])))
         elif k == 'page':
             out.append(('page', m[1], ds(m[2]), [(a, ds(b)) for a, b in m[3]]))
         elif k == 'fontface':
